@@ -161,6 +161,9 @@ func checkC01(c *Ctx, r *Report) {
 		// R3: exactly one forward
 		c.checkSingleSend(r, "R3", t.Fn, send, mqS)
 	}
+	// R5: what "registered in this session" means: who may write the
+	// registered-topics map and under which guard (shared with C02/C04)
+	c.checkRegisteredMapWriters(r, "R5")
 	// R3b: callers of the translation return its result
 	for _, t := range mine {
 		n := 0
